@@ -171,7 +171,7 @@ def explore_config(rep, task, clauses=None, pid=PID):
     return paths
 
 
-C07_CLAUSES = ('exception', 'finish-order', 'finished-step-changed', 'mixed-stages', 'recv-tag', 'recv-value', 'grammar',
+C07_CLAUSES = ('exception', 'finish-order', 'finished-step-changed', 'mixed-stages', 'recv-tag', 'recv-value', 'recv-level', 'grammar',
                'all-to-done-niter')
 
 
